@@ -555,9 +555,15 @@ private:
       dom_t x_impl(std::move(left._impl));
       dom_t y_impl(std::move(right._impl));
 
-      // Perform the mapping
+      // Perform the mapping. The left operand is only renamed (or
+      // expanded if one of its terms is generalized more than once):
+      // assign and project may close the underlying domain (e.g.,
+      // zones) and then termination is not ensured. The variables of
+      // the left operand which are not renamed are unconstrained in
+      // the right operand so they are dropped by the widening.
       term_map_t out_map;
       std::vector<dom_var_t> out_varnames;
+      std::map<term_id_t, dom_var_t> x_renamed;
       for (auto p : gener_map) {
         auto txy = p.first;
         term_id_t tz = p.second;
@@ -569,11 +575,16 @@ private:
 
         out_varnames.push_back(vt);
 
-        x_impl.assign(vt, vx);
+        auto it = x_renamed.find(txy.first);
+        if (it == x_renamed.end()) {
+          x_impl.rename({vx}, {vt});
+          x_renamed.insert(std::make_pair(txy.first, vt));
+        } else {
+          x_impl.expand(it->second, vt);
+        }
         y_impl.assign(vt, vy);
       }
 
-      x_impl.project(out_varnames);
       y_impl.project(out_varnames);
 
       dom_t x_widen_y = widen_op.apply(x_impl, y_impl);
